@@ -88,10 +88,15 @@ def load_known() -> List[dict]:
 def finish(rep: Report, tier: str, seed: int, t0: float, consulted: Dict[str, str],
            extra_cov: Optional[dict] = None) -> int:
     """Match known findings, print verdict lines, write evidence; return exit code."""
-    # vacuity guards
+    # vacuity guards: a *pass* needs the confirmed number of instances.  When a violation of an unlisted kind was
+    # found the run fails anyway and the guard is moot (a rule module may stop early once the code it would go on to
+    # interpret is shown to be broken)
+    known0 = [k for k in load_known() if k.get('property') == rep.prop and k.get('status') == 'known']
+    has_unlisted = any(o.verdict == VIOLATION and not any(k.get('rule') == o.rule and k.get('construct') == o.construct for k in known0)
+                       for o in rep.obligations)
     for rule, n in rep.min_counts.items():
         c = rep.count(rule)
-        if c < n:
+        if c < n and not has_unlisted:
             raise AnalysisError('rule %s matched %d instance(s), fewer than the %d confirmed by hand '
                                 '-- refusing a vacuous pass' % (rule, c, n))
     known = [k for k in load_known() if k.get('property') == rep.prop and k.get('status') == 'known']
